@@ -180,7 +180,7 @@ def run(fn, arg, k, fl):
             elif kind == 'K' and not ar:
                 low = arg.lower()
                 from edb.edgeql.parser.grammar import keywords as KW
-                if low in KW.reserved_keywords and low not in ('__type__', '__std__'):
+                if low in KW.reserved_keywords and not dunder(low):
                     flags.append('reserved-keyword-left-bare')
         return out, canon, flags
     if fn == 'P':
@@ -188,7 +188,8 @@ def run(fn, arg, k, fl):
         if out != CG.param_to_str(arg):
             flags.append('generate_source-differs-from-param_to_str')
         canon, kind, val, rest, _ = lex_first(out + k)
-        if ident_expressible(arg, param=True):
+        # names that already start with a backtick are passed through unchanged (outside the domain)
+        if ident_expressible(arg, param=True) and not arg.startswith('`'):
             if canon == 'err':
                 flags.append('lexer-rejects')
             elif kind != 'P':
